@@ -736,6 +736,7 @@ struct Rw<'a> {
     sites: BTreeMap<String, usize>,
     errors: Vec<String>,
     hoist_ctr: usize,
+    fm_ctr: usize,
     rename_calls: &'a BTreeMap<String, String>,
     ctor_types: &'a BTreeSet<String>,
     float_ctx: bool,
@@ -806,6 +807,234 @@ impl<'a> Rw<'a> {
             self.site("T1-hoist");
         }
         lets
+    }
+}
+
+// ---- T17: iterator chains over integer ranges -> the loops that are their std definitions ----
+
+fn unparen(e: &Expr) -> &Expr {
+    match e {
+        Expr::Paren(p) => unparen(&p.expr),
+        Expr::Group(g) => unparen(&g.expr),
+        _ => e,
+    }
+}
+
+/// `return` / `?` / `break` / `continue` / `.await` that would change meaning when a closure body becomes a plain block
+struct EscapeFinder {
+    found: bool,
+}
+impl<'ast> Visit<'ast> for EscapeFinder {
+    fn visit_expr_return(&mut self, _r: &'ast ExprReturn) {
+        self.found = true;
+    }
+    fn visit_expr_try(&mut self, _r: &'ast ExprTry) {
+        self.found = true;
+    }
+    fn visit_expr_break(&mut self, _r: &'ast ExprBreak) {
+        self.found = true;
+    }
+    fn visit_expr_continue(&mut self, _r: &'ast ExprContinue) {
+        self.found = true;
+    }
+    fn visit_expr_await(&mut self, _r: &'ast ExprAwait) {
+        self.found = true;
+    }
+    fn visit_expr_closure(&mut self, _c: &'ast ExprClosure) {}
+    fn visit_item(&mut self, _i: &'ast Item) {}
+}
+
+/// the closure `|PAT| BODY` as the block `{ let PAT = ARG; BODY }` -- what calling it with ARG means, provided the closure
+/// is a plain one (exactly one parameter, an irrefutable variable / tuple-of-variables / `_` pattern, no `move`, no
+/// declared return type, and a body from which nothing escapes by `return`, `?`, `break`, `continue`)
+fn closure_as_block(e: &Expr, arg: &Ident, ident_only: bool) -> std::result::Result<Expr, String> {
+    let cl = match e {
+        Expr::Closure(cl) => cl,
+        _ => return Err("argument is not a closure literal".into()),
+    };
+    if cl.inputs.len() != 1 || cl.capture.is_some() || cl.asyncness.is_some() || cl.constness.is_some() || cl.movability.is_some()
+        || cl.lifetimes.is_some() || !cl.attrs.is_empty() || !matches!(cl.output, ReturnType::Default)
+    {
+        return Err("closure is not of the plain form `|x| body`".into());
+    }
+    fn plain_ident(p: &Pat) -> bool {
+        matches!(p, Pat::Ident(pi) if pi.by_ref.is_none() && pi.subpat.is_none() && pi.attrs.is_empty())
+    }
+    fn ok_pat(p: &Pat, ident_only: bool) -> bool {
+        match p {
+            Pat::Ident(_) => plain_ident(p),
+            Pat::Wild(_) => !ident_only,
+            Pat::Tuple(t) => !ident_only && t.attrs.is_empty() && t.elems.iter().all(|q| plain_ident(q) || matches!(q, Pat::Wild(_))),
+            Pat::Type(pt) => !ident_only && pt.attrs.is_empty() && ok_pat(&pt.pat, false),
+            _ => false,
+        }
+    }
+    let pat = &cl.inputs[0];
+    if !ok_pat(pat, ident_only) {
+        return Err("closure parameter is not a variable or a tuple of variables".into());
+    }
+    let mut esc = EscapeFinder { found: false };
+    esc.visit_expr(&cl.body);
+    if esc.found {
+        return Err("closure body contains return / ? / break / continue".into());
+    }
+    if ident_only {
+        // used as a match-arm binding by the caller: hand back the body only
+        return Ok((*cl.body).clone());
+    }
+    let body = &cl.body;
+    Ok(match &**body {
+        Expr::Block(b) if b.attrs.is_empty() && b.label.is_none() => {
+            let stmts = &b.block.stmts;
+            parse_quote!({ let #pat = #arg; #(#stmts)* })
+        }
+        other => parse_quote!({ let #pat = #arg; #other }),
+    })
+}
+
+/// `(A..B)` / `(A..=B)` with both bounds present
+fn int_range(e: &Expr) -> Option<(&Expr, &Expr, bool)> {
+    if let Expr::Range(r) = unparen(e) {
+        if let (Some(a), Some(b)) = (&r.start, &r.end) {
+            if r.attrs.is_empty() {
+                return Some((a, b, matches!(r.limits, RangeLimits::Closed(_))));
+            }
+        }
+    }
+    None
+}
+
+impl<'a> Rw<'a> {
+    /// T17.  `Iterator::find_map` is `while let Some(x) = self.next() { if let Some(y) = f(x) { return Some(y) } } None`,
+    /// `FilterMap::next` is `while let Some(x) = inner.next() { if let Some(y) = f(x) { return Some(y) } } None`, the `next` of
+    /// `Range<uN>` is `if start < end { let n = start; start = n + 1; Some(n) } else { None }` and the `next` of
+    /// `RangeInclusive<uN>` is `if exhausted || !(start <= end) { None } else if start < end { let n = start; start = n + 1;
+    /// Some(n) } else { exhausted = true; Some(start) }` (emitted as `while i <= hi { let cur = i; STEP; if i < hi { i = i + 1 }
+    /// else { break } }`: same elements in the same order, no increment past the upper bound).  The three rules below inline exactly these definitions (lazy, left
+    /// to right, stop at the first `Some`); the closures become blocks that bind their parameter first.
+    ///   (A..B).find_map(G)                 (A..=B).find_map(G)
+    ///   (A..B).filter_map(F).find_map(G)   (A..=B).filter_map(F).find_map(G)
+    ///   CHAIN.iter().find_map(|x| BODY)    where CHAIN is one of the four above (hence an `Option`, whose iterator yields
+    ///                                      its content by reference at most once): match &CHAIN { Some(x) => BODY, None => None }
+    /// Returns None when the expression is not of one of these shapes (left alone); a shape that matches with a closure
+    /// that cannot be substituted is a translator error.
+    fn t17(&mut self, e: &Expr) -> Option<Expr> {
+        let mc = match e {
+            Expr::MethodCall(mc) if mc.method == "find_map" && mc.args.len() == 1 && mc.turbofish.is_none() && mc.attrs.is_empty() => mc,
+            _ => return None,
+        };
+        // Option::iter().find_map(..) on a chain result
+        if let Expr::MethodCall(it) = unparen(&mc.receiver) {
+            if it.method == "iter" && it.args.is_empty() && it.turbofish.is_none() {
+                if let Some(chain) = self.t17(unparen(&it.receiver)) {
+                    let n = self.fm_ctr;
+                    self.fm_ctr += 1;
+                    let opt = Ident::new(&format!("__vx_opt{}", n), Span::call_site());
+                    let dummy = opt.clone();
+                    return match closure_as_block(&mc.args[0], &dummy, true) {
+                        Ok(body) => {
+                            let pat = match &mc.args[0] {
+                                Expr::Closure(cl) => cl.inputs[0].clone(),
+                                _ => unreachable!(),
+                            };
+                            self.site("T17-option-iter-find-map");
+                            Some(parse_quote!({
+                                let #opt = #chain;
+                                match &#opt {
+                                    Some(#pat) => #body,
+                                    None => None,
+                                }
+                            }))
+                        }
+                        Err(msg) => {
+                            self.errors.push(format!("T17 `.iter().find_map(..)` on an Option: {}", msg));
+                            None
+                        }
+                    };
+                }
+                return None;
+            }
+        }
+        // range [. filter_map(F)] . find_map(G)
+        let (range, filt): (&Expr, Option<&Expr>) = match unparen(&mc.receiver) {
+            Expr::MethodCall(fm) if fm.method == "filter_map" && fm.args.len() == 1 && fm.turbofish.is_none() && int_range(&fm.receiver).is_some() => {
+                (&fm.receiver, Some(&fm.args[0]))
+            }
+            r if matches!(&*mc.receiver, Expr::Paren(_)) && int_range(r).is_some() => (&*mc.receiver, None),
+            _ => return None,
+        };
+        let (a, b, closed) = int_range(range).unwrap();
+        let n = self.fm_ctr;
+        self.fm_ctr += 1;
+        let id = |s: &str| Ident::new(&format!("__vx_{}{}", s, n), Span::call_site());
+        let (r, i, hi, cur, f, x, o) = (id("r"), id("i"), id("hi"), id("cur"), id("f"), id("x"), id("o"));
+        let g_block = match closure_as_block(&mc.args[0], if filt.is_some() { &x } else { &cur }, false) {
+            Ok(b) => b,
+            Err(msg) => {
+                self.errors.push(format!("T17 `(a..b).find_map(..)`: {}", msg));
+                return None;
+            }
+        };
+        let found_b: Block = parse_quote!({
+            let #o = #g_block;
+            if #o.is_some() {
+                #r = #o;
+                break;
+            }
+        });
+        let found: Vec<Stmt> = found_b.stmts;
+        let step: Vec<Stmt> = match filt {
+            None => found,
+            Some(fc) => {
+                let f_block = match closure_as_block(fc, &cur, false) {
+                    Ok(b) => b,
+                    Err(msg) => {
+                        self.errors.push(format!("T17 `(a..b).filter_map(..).find_map(..)`: {}", msg));
+                        return None;
+                    }
+                };
+                let b: Block = parse_quote!({
+                    let #f = #f_block;
+                    match #f {
+                        Some(#x) => { #(#found)* }
+                        None => {}
+                    }
+                });
+                b.stmts
+            }
+        };
+        self.site(if filt.is_some() { "T17-range-filter-map-find-map" } else { "T17-range-find-map" });
+        Some(if closed {
+            // the element is handed out first and the range advanced afterwards (unobservable: the step does not see the
+            // range); the last element ends the loop instead of an increment that could overflow
+            parse_quote!({
+                let mut #r = None;
+                let mut #i = #a;
+                let #hi = #b;
+                while #i <= #hi {
+                    let #cur = #i;
+                    #(#step)*
+                    if #i < #hi {
+                        #i = #i + 1;
+                    } else {
+                        break;
+                    }
+                }
+                #r
+            })
+        } else {
+            parse_quote!({
+                let mut #r = None;
+                let mut #i = #a;
+                let #hi = #b;
+                while #i < #hi {
+                    let #cur = #i;
+                    #i = #i + 1;
+                    #(#step)*
+                }
+                #r
+            })
+        })
     }
 }
 
@@ -1031,6 +1260,17 @@ impl<'a> VisitMut for Rw<'a> {
         if let Some(n) = t15 {
             *e = n;
             self.site("T15-from-iter-map");
+        }
+        // T17: find_map / filter_map+find_map over an integer range, and `.iter().find_map(..)` on the Option such a chain
+        // returns -> their std definitions as loops (see `t17`)
+        if let Expr::MethodCall(mc) = e {
+            // a chain used as the receiver of a further method (`CHAIN.unwrap_or_else(..)`): the block needs parentheses there
+            if let Some(n) = self.t17(&mc.receiver) {
+                *mc.receiver = parse_quote!((#n));
+            }
+        }
+        if let Some(n) = self.t17(e) {
+            *e = n;
         }
         // T14 (eta): `.map(Ctor)` with a tuple-struct constructor used as a function value -> `.map(|__c| Ctor(__c))`
         // (Verus does not support constructors as function values; the closure is the same function)
@@ -1663,6 +1903,7 @@ fn main() {
             sites: BTreeMap::new(),
             errors: vec![],
             hoist_ctr: 0,
+            fm_ctr: 0,
             rename_calls: &rc_local,
             ctor_types: &c.type_names,
             float_ctx: false,
